@@ -3,6 +3,7 @@
 package connectconformance
 
 import (
+	"bytes"
 	"fmt"
 	"sort"
 	"strings"
@@ -269,6 +270,21 @@ func vfDeviations(def *conformancev1.TestCase) []vfDeviation {
 			}
 			a.Payloads[i].Data = d
 		}})
+		if len(p.Data) > 1 {
+			// one byte altered at the very end / very beginning of the data, whatever its length
+			for _, where := range []string{"last", "first"} {
+				where := where
+				add(vfDeviation{class: "payload-data-" + where + "-byte", field: "payloads", pos: i, want: fmt.Sprintf("response #%d: expecting data", i+1), apply: func(a *conformancev1.ClientResponseResult) {
+					d := append([]byte{}, a.Payloads[i].Data...)
+					if where == "last" {
+						d[len(d)-1] ^= 0x80
+					} else {
+						d[0] ^= 0x80
+					}
+					a.Payloads[i].Data = d
+				}})
+			}
+		}
 		if len(exp.Payloads) > 1 && i+1 < len(exp.Payloads) && !proto.Equal(exp.Payloads[i], exp.Payloads[i+1]) &&
 			(string(exp.Payloads[i].Data) != string(exp.Payloads[i+1].Data)) {
 			add(vfDeviation{class: "payload-order", field: "payloads", pos: i, want: fmt.Sprintf("response #%d: expecting data", i+1), apply: func(a *conformancev1.ClientResponseResult) {
@@ -836,6 +852,10 @@ func vfGenDefinition(t *rapid.T) *conformancev1.TestCase {
 	np := rapid.IntRange(0, 4).Draw(t, "npayloads")
 	for i := 0; i < np; i++ {
 		p := &conformancev1.ConformancePayload{Data: rapid.SliceOfN(rapid.Byte(), 0, 12).Draw(t, "data")}
+		if rapid.IntRange(0, 5).Draw(t, "bigData") == 0 {
+			// (response data is not always a handful of bytes)
+			p.Data = bytes.Repeat(append([]byte{byte(i)}, p.Data...), rapid.SampledFrom([]int{6, 20, 70, 400}).Draw(t, "repeat"))
+		}
 		if rapid.IntRange(0, 4).Draw(t, "hasRI") != 0 {
 			p.RequestInfo = vfGenReqInfo(t, "ri", i == 0)
 		}
